@@ -277,6 +277,18 @@ func checkC08(r *Report) {
 					lk, ok := ex.Tuple.(*ssa.Lookup)
 					return ok && strings.HasSuffix(lk.X.Type().String(), "map[deps.dev/util/resolve.PackageKey]deps.dev/util/resolve.NodeID")
 				})
+			}}, {"the requirement was recorded by a version that is not the one selected for its package", func(c ssa.Value) bool {
+				return condDerives(c, 0, func(v ssa.Value) bool {
+					// a comparison of two version keys, neither a constant (the
+					// recorded parent against the node's or the pinned version)
+					bo, ok := v.(*ssa.BinOp)
+					if !ok || (bo.Op != token.EQL && bo.Op != token.NEQ) || !strings.HasSuffix(bo.X.Type().String(), "resolve.VersionKey") {
+						return false
+					}
+					_, cx := bo.X.(*ssa.Const)
+					_, cy := bo.Y.(*ssa.Const)
+					return !cx && !cy
+				})
 			}}}
 			// the exemption is on the FALSE edge of `ok`; loopAccount attaches exemptions to true edges,
 			// so accept either polarity here by wrapping
@@ -284,7 +296,7 @@ func checkC08(r *Report) {
 			key := fnKey(f) + ": every recorded requirement becomes an edge"
 			if len(res.unaccounted) > 0 {
 				pp := pathPositions(p, res.unaccounted[0])
-				r.bad("C08.c/GRAPH-SHAPE", key, pp[len(pp)-1], "a recorded requirement of a selected package can be skipped without an edge, an error, or the documented reason (its parent has no node)", pp...)
+				r.bad("C08.c/GRAPH-SHAPE", key, pp[len(pp)-1], "a recorded requirement of a selected package can be skipped without an edge, an error, or a documented reason (its parent has no node, or is not the version selected for its package)", pp...)
 			} else {
 				r.ok("C08.c/GRAPH-SHAPE", key, blockPos(p, l.header), fmt.Sprintf("each iteration ends in AddEdge (%d blocks), an error return (%d) or the documented skip", res.accounted, res.returns))
 			}
@@ -367,6 +379,7 @@ func checkC08(r *Report) {
 		}
 	}
 	parentKeyRule(r, p, "C08.e/PARENT-KEY")
+	edgeParentVersionRule(r, p, "C08.i/EDGE-PARENT-VERSION")
 	critMapFrozenRule(r, p, e, "C08.f/CRIT-MAP-FROZEN")
 	memoNegativeRule(r, p, "C08.g/MEMO-NEGATIVE")
 	criterionLiteralRule(r, p, "C08.h/CRITERION-COMPLETE")
@@ -1035,4 +1048,119 @@ func criterionLiteralRule(r *Report, p *Prog, rule string) {
 		}
 	}
 	r.floor(rule, "non-empty criterion literals in package pypi", n, 1)
+}
+
+// edgeParentVersionRule (C08.i EDGE-PARENT-VERSION): the criteria record, for
+// every requirement, the VERSION that made it. hasRouteToRoot follows such a
+// record only if that version is the one pinned for its package; buildGraph
+// turned it into an edge from whatever version of the parent's package has a
+// node, so a requirement made by a version that was later replaced showed up
+// as an edge from the replacement, which does not make it. On every path from
+// the lookup of the parent's node to AddEdge (the root case apart) the recorded
+// parent version is compared with another version key.
+func edgeParentVersionRule(r *Report, p *Prog, rule string) {
+	f := p.lookupFn("resolve/pypi.buildGraph")
+	key := "resolve/pypi.buildGraph: an edge starts at the version that made the requirement"
+	if f == nil {
+		r.bad(rule, key, "", "buildGraph not found: anchor lost")
+		return
+	}
+	isVK := func(t types.Type) bool { return strings.HasSuffix(t.String(), "resolve.VersionKey") }
+	// the recorded parent: the VersionKey compared with the zero value
+	var parent ssa.Value
+	var rootIf *ssa.If
+	for _, b := range f.Blocks {
+		ifi, ok := b.Instrs[len(b.Instrs)-1].(*ssa.If)
+		if !ok {
+			continue
+		}
+		bo, ok := ifi.Cond.(*ssa.BinOp)
+		if !ok || (bo.Op != token.EQL && bo.Op != token.NEQ) || !isVK(bo.X.Type()) {
+			continue
+		}
+		if c, ok := bo.Y.(*ssa.Const); ok && c.Value == nil {
+			parent, rootIf = bo.X, ifi
+		}
+	}
+	if parent == nil {
+		r.bad(rule, key, p.pos(f.Pos()), "the test of the recorded parent against the zero version key (the root case) was not found: anchor lost")
+		return
+	}
+	// start: the branch for a real parent
+	bo := rootIf.Cond.(*ssa.BinOp)
+	start := rootIf.Block().Succs[1]
+	if bo.Op == token.NEQ {
+		start = rootIf.Block().Succs[0]
+	}
+	comparesParent := func(b *ssa.BasicBlock) bool {
+		for _, in := range b.Instrs {
+			x, ok := in.(*ssa.BinOp)
+			if !ok || (x.Op != token.EQL && x.Op != token.NEQ) || !isVK(x.X.Type()) {
+				continue
+			}
+			if _, isConst := x.Y.(*ssa.Const); isConst {
+				continue
+			}
+			if _, isConst := x.X.(*ssa.Const); isConst {
+				continue
+			}
+			if sameVar(x.X, parent) || sameVar(x.Y, parent) {
+				return true
+			}
+		}
+		return false
+	}
+	isAddEdge := func(b *ssa.BasicBlock) ssa.Instruction {
+		for _, in := range b.Instrs {
+			if c, ok := in.(*ssa.Call); ok && c.Common().StaticCallee() != nil && c.Common().StaticCallee().Name() == "AddEdge" {
+				return in
+			}
+		}
+		return nil
+	}
+	seen := map[*ssa.BasicBlock]bool{}
+	var offending ssa.Instruction
+	nEdges := 0
+	var walk func(b *ssa.BasicBlock)
+	walk = func(b *ssa.BasicBlock) {
+		if offending != nil || seen[b] {
+			return
+		}
+		seen[b] = true
+		if comparesParent(b) {
+			return
+		}
+		if in := isAddEdge(b); in != nil {
+			nEdges++
+			offending = in
+			return
+		}
+		if b == rootIf.Block() {
+			return // next recorded requirement
+		}
+		for _, s := range b.Succs {
+			walk(s)
+		}
+	}
+	walk(start)
+	if offending != nil {
+		r.bad(rule, key, p.pos(offending.Pos()), "for a recorded requirement whose parent is not the root, the source of the edge is looked up by the parent's PACKAGE and the edge is added without comparing the recorded parent VERSION with the version selected for that package: a requirement made by a version that was later replaced becomes an edge from the replacement, which does not declare it (hasRouteToRoot does compare the versions)")
+	} else {
+		r.ok(rule, key, p.pos(f.Pos()), "every path from the parent's node lookup to AddEdge compares the recorded parent version with another version key")
+	}
+}
+
+// sameVar reports whether a and b are the same SSA value or two loads of the
+// same local variable.
+func sameVar(a, b ssa.Value) bool {
+	if a == b {
+		return true
+	}
+	la, ok1 := a.(*ssa.UnOp)
+	lb, ok2 := b.(*ssa.UnOp)
+	if !ok1 || !ok2 {
+		return false
+	}
+	_, isAlloc := la.X.(*ssa.Alloc)
+	return isAlloc && la.X == lb.X
 }
